@@ -312,8 +312,13 @@ def check_frames(ctx, P):
     tlt = {}
     for b, i, t, S in ret_terms(tl, gt.tb, gt):
         add = [x for x in flatten(t, "Add") if x[0] == "const"]
-        extra = sum(x[1] for x in add) - 3
+        flags = [x for x in flatten(t, "Add") if strip_casts(x)[0] == "local"]
         for fs in S:
+            extra = sum(x[1] for x in add) - 3
+            for x in flags:  # a summand held in a variable whose value is known on this path class (`let framing = if .. {3} else {6}`)
+                vs_ = fs.get(strip_casts(x))
+                if vs_ is not None and vs_[0] == "in" and len(vs_[1]) == 1:
+                    extra += next(iter(vs_[1]))
             for k, vs in fs.items():
                 if "pdu_len" in show(k) and k[0] != "cmp":
                     if vs[0] == "in":
